@@ -232,7 +232,7 @@ def jobs(tier, seed):
     from vf.runner import seq_jobs
     return [{"name": f"ids/{sh}", "part": "ids", "shard": [sh, nsh], "weight": 5} for sh in range(nsh)] + \
         [{"name": "block", "part": "block", "weight": 2}, {"name": "huge", "part": "huge", "weight": 8}] + seq_jobs(3, weight=3) + __import__("vf.runner", fromlist=["x"]).long_jobs() + __import__("vf.runner", fromlist=["x"]).interrupt_jobs(len(INTERRUPT_X)) + __import__("vf.runner", fromlist=["x"]).concur_jobs(len(CONCUR_SCEN) - (1 if tier == "quick" else 0)) + \
-        [{"name": f"concurrent-light/{i}", "part": "concurcase", "idx": i, "curve": None, "deep": 1, "weight": 8} for i in range(len(LIGHT_SCEN))]
+        [{"name": f"concurrent-light/{i}", "part": "concurcase", "idx": i, "curve": None, "deep": 1, "weight": 30} for i in range(len(LIGHT_SCEN) if tier == "thorough" else 1)]
 
 
 def run_job(job):
